@@ -22,13 +22,13 @@ from vmon import REPO_ROOT, VERIF_ROOT
 from vmon.core import HarnessError
 
 
-def run_child(module, payload, hashseed, timeout=900):
+def run_child(module, payload, hashseed, timeout=900, env=None):
   work = tempfile.mkdtemp(prefix='vmon-xproc-', dir=os.environ.get('VMON_WORK') or None)
   spec, res = os.path.join(work, 'in.pkl'), os.path.join(work, 'out.pkl')
   try:
     with open(spec, 'wb') as f:
       pickle.dump(payload, f)
-    env = dict(os.environ)
+    env = dict(os.environ, **(env or {}))
     env['PYTHONHASHSEED'] = str(hashseed)
     try:
       p = subprocess.run([sys.executable, '-m', module, '--xproc', spec, res], env=env, capture_output=True, text=True,
@@ -54,3 +54,25 @@ def child_main(handler):
   out = handler(payload)
   with open(sys.argv[3], 'wb') as f:
     pickle.dump(out, f)
+
+
+def run_family(ctx, module, family, env=None, timeout=2400):
+  """Runs one family of a check in a fresh interpreter with extra environment (e.g. JAX_ENABLE_X64=1) and returns the child
+  context's result() (merge it with ctx.absorb). The child gets the same tier / seed / shard assignment / replay case; the
+  check module must end with `xproc.child_main(xproc.family_handler(__name__))` and its run() must look at ctx.xproc_child."""
+  payload = {'family': family, 'tier': ctx.tier, 'seed': ctx.seed, 'shard': ctx.shard, 'nshards': ctx.nshards,
+             'replay_case': ctx.replay_case, 'prop': ctx.prop}
+  return run_child(module, payload, os.environ.get('PYTHONHASHSEED', '0'), timeout=timeout, env=env)
+
+
+def family_handler(module_name):
+  def handler(payload):
+    import importlib
+    from vmon.core import Ctx
+    mod = importlib.import_module(module_name) if module_name != '__main__' else sys.modules['__main__']
+    ctx = Ctx(payload['prop'], payload['tier'], payload['seed'], payload['shard'], payload['nshards'],
+              replay_case=payload['replay_case'])
+    ctx.xproc_child = payload['family']
+    mod.run(ctx)
+    return ctx.result()
+  return handler
